@@ -16,6 +16,7 @@ from smartquery.exceptions import ParserError
 
 REGEX_TIMEOUT = 0.05
 MAX_ARRAY_SIZE = 10000
+MAX_ROUND_DIGITS = 1000
 CAST_DICT_KEYS_TO_STRINGS = True  # for JSON serialisation compatability
 NUMERIC_TYPES = (Decimal_, int, float)
 
@@ -333,9 +334,27 @@ def _multiply(op1: Any, op2: Any) -> Any:
     return Decimal(op1) * Decimal(op2)
 
 
+def _is_big_integral(v: Any) -> bool:
+    # a decimal with a positive exponent beyond the 28 digits of precision (1E+999999) is an integer
+    # already; converting it through int() would materialise every digit
+    return isinstance(v, Decimal_) and v.is_finite() and v.as_tuple().exponent > 0 and v.adjusted() >= 28
+
+
+def _round(v: Any, nd: Any = None) -> Any:
+    if nd is not None:
+        nd = MAX_ROUND_DIGITS + 1 if _is_big_integral(nd) else int(nd)
+        if abs(nd) > MAX_ROUND_DIGITS:
+            raise ParserError(f'round() digits out of range: {MAX_ROUND_DIGITS}')
+
+    if _is_big_integral(v):
+        return Decimal(v)
+
+    return Decimal(str(round(v, nd)))
+
+
 FUNCTIONS: Dict[str, Callable] = {
     'len': len,
-    'int': lambda v: Decimal(int(v)),
+    'int': lambda v: Decimal(v) if _is_big_integral(v) else Decimal(int(v)),
     'float': lambda v: Decimal(float(v)),
     'str': str,
     'dict': lambda *args: dict(*args),
@@ -373,9 +392,9 @@ FUNCTIONS: Dict[str, Callable] = {
     'split': _split,
 
     # math:
-    'round': lambda v, nd=None: Decimal(str(round(v, int(nd) if nd is not None else None))),
-    'floor': lambda *args: Decimal(str(math.floor(*args))),
-    'ceil': lambda *args: Decimal(str(math.ceil(*args))),
+    'round': _round,
+    'floor': lambda *args: Decimal(args[0]) if _is_big_integral(*args) else Decimal(str(math.floor(*args))),
+    'ceil': lambda *args: Decimal(args[0]) if _is_big_integral(*args) else Decimal(str(math.ceil(*args))),
     'abs': lambda v: Decimal(abs(v)),
     'min': min,
     'max': max,
